@@ -61,6 +61,10 @@ type Engine struct {
 	boxNotes  map[string]bool
 	known     []KnownFinding
 	specQuiet int
+	topFns    map[string]*FnCtx
+	quickCache map[string]bool
+	quickCtr  int
+	litConsts map[string]bool // integer literals of the function under verification (for nl.mod/nl.div instances)
 	leafTypes map[string]types.Type
 	symAxioms map[string][]string
 	trivial   int
@@ -100,7 +104,7 @@ func newEngine() *Engine {
 		unmod: map[string]bool{}, assumed: map[string]bool{}, notes: map[string]bool{}, ordinals: map[string]int{},
 		typeTags: map[string]int{}, tagTypes: map[int]types.Type{}, usedUF: map[string]bool{}, boxNotes: map[string]bool{},
 		strLits: map[string]string{}, floatLits: map[string]string{}, gnn: map[*types.Var]bool{}, boxedAll: map[types.Object]bool{},
-		defs: map[string]string{}, dynUF: map[string]*UFDecl{}, leafTypes: map[string]types.Type{}, symAxioms: map[string][]string{},
+		defs: map[string]string{}, dynUF: map[string]*UFDecl{}, leafTypes: map[string]types.Type{}, symAxioms: map[string][]string{}, topFns: map[string]*FnCtx{}, quickCache: map[string]bool{}, litConsts: map[string]bool{},
 	}
 }
 
@@ -253,6 +257,7 @@ type FnCtx struct {
 	litOwner *FnCtx
 	inputs   []modelVar
 	lockEntry *State
+	replayInputs []replayInput
 }
 
 func (f *FnCtx) info() *types.Info { return f.pkg.TypesInfo }
